@@ -9,6 +9,7 @@ package main
 
 import (
 	"encoding/json"
+	"errors"
 	"fmt"
 	"net"
 	"os"
@@ -84,6 +85,12 @@ func (w *world) pubCb(id int) service.OnPublishFunc {
 }
 
 func (w *world) doneCb(id int, ch chan struct{}) service.OnCompleteFunc {
+	return w.doneCbE(id, ch, true)
+}
+
+// mayFail: the callback of an acknowledged request returns an error for some ids (a QoS 0 Publish hands the
+// callback's result back to its caller, so there it never does)
+func (w *world) doneCbE(id int, ch chan struct{}, mayFail bool) service.OnCompleteFunc {
 	if id == 0 && ch == nil {
 		return nil
 	}
@@ -97,6 +104,11 @@ func (w *world) doneCb(id int, ch chan struct{}) service.OnCompleteFunc {
 		}
 		if ch != nil {
 			close(ch)
+		}
+		if mayFail && id%7 == 3 {
+			// what a completion callback returns is the application's business: the completions of other requests
+			// must not depend on it
+			return errors.New("application error")
 		}
 		return nil
 	}
@@ -396,7 +408,7 @@ func (rn *runner) run(evs []hx.Group) {
 			m.SetPayload(b[ev[5]:])
 			m.SetRetain(ev[2] != 0)
 			m.SetPacketID(uint16(ev[3]))
-			ok = w.cln.Publish(m, w.doneCb(int(ev[4]), nil)) == nil
+			ok = w.cln.Publish(m, w.doneCbE(int(ev[4]), nil, ev[1] != 0)) == nil
 			pkts = w.barrier(nil)
 		case 4:
 			ch := make(chan struct{})
